@@ -337,6 +337,10 @@ main(void)
 			}
 			ev_add("rv %d", rv);
 			finish_line();
+		} else if (IS("advance") && vn == 2) {
+			// virtual time passes: a device must keep forwarding whatever receive/send time-outs its sockets have
+			sim_advance(atoi(vw[1]));
+			finish_line();
 		} else if (IS("probe") && vn == 2) {
 			int          s = atoi(vw[1]);
 			nng_duration d;
